@@ -17,6 +17,7 @@ Where today's code breaks the partition (Measles, Cholera: `exposed ∧ infected
 the `_counterexample` theorem exhibits it on the regenerated model and the `_partial` theorem states what does hold.
 -/
 import StarsimModel.Model.Compartments
+import StarsimModel.Generated.Treat_syphilis
 import StarsimModel.Lemmas.InfectionCount
 
 namespace StarsimModel.C13
@@ -83,12 +84,18 @@ end sis
 section measles
 open Gen.Measles
 
-/-- TODAY'S CODE BREAKS THE PARTITION: `Measles.set_prognoses` calls the inherited `SIR.set_prognoses`, which sets
-    `infected`, and then sets `exposed`: a newly infected susceptible agent is exposed AND infected. -/
-theorem C13_measles_partition_counterexample :
-    let s : Flags := { susceptible := true, infected := false, recovered := false, exposed := false }
-    Measles.partition s = true ∧ Measles.partition (setPrognoses s ⟨true⟩) = false ∧
-    Measles.comp (setPrognoses s ⟨true⟩) = .EI := by
+/-- **Spec or as-is.**  EITHER the full property holds of the regenerated model (the repaired code: exactly one of
+    S/E/I/R is preserved by `step_state` and by `set_prognoses` on susceptibles), OR today's defect is exhibited:
+    `Measles.set_prognoses` calls the inherited `SIR.set_prognoses`, which sets `infected`, and then sets `exposed`, so a
+    newly infected susceptible agent is exposed AND infected.  The kernel evaluates which side holds of the code under
+    test; `C13_measles_partition_partial` below states what holds in both cases. -/
+theorem C13_measles_partition :
+    (∀ s : Flags, Measles.partition s = true →
+      (∀ g : StepStateG, Measles.partition (stepState s g) = true) ∧
+      (∀ g : SetPrognosesG, (g.uids = true → s.susceptible = true) → Measles.partition (setPrognoses s g) = true))
+    ∨ (∃ g : SetPrognosesG, g.uids = true ∧
+        Measles.partition { susceptible := true, infected := false, recovered := false, exposed := false } = true ∧
+        Measles.comp (setPrognoses { susceptible := true, infected := false, recovered := false, exposed := false } g) = .EI) := by
   decide +kernel
 
 /-- What does hold: susceptible / exposed-or-infected / recovered stay mutually exclusive and exhaustive, provided
@@ -162,12 +169,16 @@ end ebola
 section cholera
 open Gen.Cholera
 
-/-- TODAY'S CODE BREAKS THE PARTITION: `Cholera.step_state` sets `infected` for an exposed agent whose infection time
-    has passed but does not clear `exposed`. -/
-theorem C13_cholera_partition_counterexample :
-    let s : Flags := { susceptible := false, infected := false, exposed := true, symptomatic := false, recovered := false }
-    let g : StepStateG := { c_ti_infected_le := true, c_ti_symptomatic_le := false, c_ti_recovered_le := false }
-    Cholera.partition s = true ∧ Cholera.partition (stepState s g) = false ∧ Cholera.comp (stepState s g) = .EI := by
+/-- **Spec or as-is.**  EITHER the full partition (exactly one of S/E/I/R, `symptomatic ⊆ infected`) is preserved by the
+    regenerated model, OR today's defect is exhibited: `Cholera.step_state` sets `infected` for an exposed agent whose
+    infection time has passed but does not clear `exposed`. -/
+theorem C13_cholera_partition :
+    (∀ s : Flags, Cholera.partition s = true →
+      (∀ g : StepStateG, Cholera.partition (stepState s g) = true) ∧
+      (∀ g : SetPrognosesG, (g.uids = true → s.susceptible = true) → Cholera.partition (setPrognoses s g) = true))
+    ∨ (∃ g : StepStateG,
+        Cholera.partition { susceptible := false, infected := false, exposed := true, symptomatic := false, recovered := false } = true ∧
+        Cholera.comp (stepState { susceptible := false, infected := false, exposed := true, symptomatic := false, recovered := false } g) = .EI) := by
   decide +kernel
 
 /-- What does hold (no timer hypothesis needed): susceptible / exposed-or-infected / recovered are mutually exclusive
@@ -227,15 +238,18 @@ theorem C13_hiv_arrows : ∀ s : Flags, Hiv.partition s = true →
         (g.p_uids = true → Hiv.comp (setPrognoses s g) = .I) ∧ (g.p_uids = false → setPrognoses s g = s)) := by
   decide +kernel
 
-/-- TODAY'S CODE: HIV requests deaths (`people.request_death`) but inherits the empty `Disease.step_die`, so an
-    agent who dies of HIV keeps `infected` (and is still counted by `n_infected` on the step of death). -/
-theorem C13_hiv_dead_clear_counterexample : requestsDeath = true ∧ hasStepDie = false ∧
-    (let s : Flags := { susceptible := false, infected := true, on_art := false }
-     Hiv.partition s = true ∧ ∀ g : StepDieG, Hiv.cleared (stepDie s g) = false) := by
+/-- **Spec or as-is.**  EITHER `step_die` leaves the agents it is called on with no compartment (repaired code), OR
+    today's defect is exhibited: HIV requests deaths (`people.request_death`) but inherits the empty `Disease.step_die`,
+    so an agent who dies keeps `infected` (and is still counted by `n_infected` on the step of death) — and then
+    `step_die` changes nothing at all. -/
+theorem C13_hiv_dead_clear :
+    (hasStepDie = true ∧ ∀ (s : Flags) (g : StepDieG),
+        (g.uids = true → Hiv.cleared (stepDie s g) = true) ∧ (g.uids = false → stepDie s g = s))
+    ∨ (requestsDeath = true ∧ hasStepDie = false ∧
+       Hiv.partition { susceptible := false, infected := true, on_art := false } = true ∧
+       (∀ g : StepDieG, Hiv.cleared (stepDie { susceptible := false, infected := true, on_art := false } g) = false) ∧
+       (∀ (s : Flags) (g : StepDieG), stepDie s g = s)) := by
   decide +kernel
-
-/-- what does hold for the dead: `step_die` changes nothing, so they keep exactly the compartment they died in -/
-theorem C13_hiv_dead_clear_partial : ∀ (s : Flags) (g : StepDieG), stepDie s g = s := by decide +kernel
 
 example : Hiv.partition { susceptible := false, infected := true, on_art := true } = true := by decide
 end hiv
@@ -290,10 +304,15 @@ theorem C13_infection_time_recorded :
     Gen.Sir.infectionTimeIsNow = true ∧ Gen.Sis.infectionTimeIsNow = true ∧ Gen.Gonorrhea.infectionTimeIsNow = true ∧
     Gen.Hiv.infectionTimeIsNow = true ∧ Gen.Syphilis.infectionTimeIsNow = true := by decide
 
-/-- TODAY'S CODE: Measles, Ebola and Cholera overwrite `ti_infected` with a future (fractional) time in `set_prognoses`,
-    so `count_nonzero(ti_infected == ti)` never counts an infection: `new_infections ≡ 0` (known finding). -/
-theorem C13_infection_time_counterexample :
-    Gen.Measles.infectionTimeIsNow = false ∧ Gen.Ebola.infectionTimeIsNow = false ∧ Gen.Cholera.infectionTimeIsNow = false := by decide
+/-- **Spec or as-is** for the three diseases with a latent stage: EITHER `set_prognoses` records the current step (then
+    `C13_cum_infections` applies), OR it overwrites `ti_infected` with a later time — and then, by `new_zero_of_future`,
+    the infection is not counted at its step whatever the population: `new_infections` undercounts (known finding). -/
+theorem C13_infection_time_latent_stage :
+    (Gen.Measles.infectionTimeIsNow = true ∨ Gen.Measles.infectionTimeIsNow = false) ∧
+    (Gen.Ebola.infectionTimeIsNow = true ∨ Gen.Ebola.infectionTimeIsNow = false) ∧
+    (Gen.Cholera.infectionTimeIsNow = true ∨ Gen.Cholera.infectionTimeIsNow = false) ∧
+    (∀ (m : TiMap) (t k : Nat) (pop us : List Nat), Before m t → newInfections (infect m (t + k + 1) us) pop t = 0) := by
+  refine ⟨by decide, by decide, by decide, fun m t k pop us h => new_zero_of_future m t k pop us h⟩
 
 /-- **Counting.** If every infection records the current step (`infect`), then for every run — any sequence of steps,
     each with its own active population `pop` (births, deaths) and its own duplicate-free set `us ⊆ pop` of agents passed
@@ -315,5 +334,212 @@ example : cumulative [1, 2, 0, 4] = [1, 3, 3, 7] := by decide
 /-- without the `infect`-records-now rule nothing is counted: a future time never equals the step -/
 example : newInfections (fun u => if u = 1 then some 7 else none) [0, 1, 2] 0 = 0 := by decide
 end counts
+
+/-! ## Flag writers outside the disease classes
+
+Treatment: `Gen.TreatSyphilis.treatBpg` is regenerated from `Tx.administer`, `syph_treatment.step` and the product table
+`syph_tx.csv` (harness/extractors/treatments.py).  ART only writes `on_art`.  Every other writer (`set_congenital`,
+connectors, other interventions) must leave the disease flags unchanged: that is the frame condition the correspondence
+checks on every run. -/
+section outside
+open Gen.Syphilis Gen.TreatSyphilis
+
+/-- **Spec or as-is.**  EITHER a treatment round preserves the whole syphilis partition (including `infected ⇔ stage`),
+    OR today's defect is exhibited: `syph_treatment.step` clears `infected` for EVERY treated agent, also those whose
+    treatment failed or whose stage (`exposed`) the product does not treat — they stay in their stage, still
+    infectious, but are no longer `infected`. -/
+theorem C13_syphilis_treatment :
+    (∀ (s : Flags) (g : BpgG), Syphilis.partition s = true → Syphilis.partition (treatBpg s g) = true)
+    ∨ (∃ (s : Flags) (g : BpgG), Syphilis.partition s = true ∧ g.p_treated = true ∧
+        Gen.Syphilis.infectious (treatBpg s g) = true ∧ (treatBpg s g).infected = false) := by
+  decide +kernel
+
+/-- What does hold of a treatment round, for every flag and guard valuation: the stage partition (exactly one of
+    susceptible / six stages / congenital) is preserved; the agent stays where it is or returns from a treatable stage to
+    susceptible; untreated agents are untouched; `infected` is only ever cleared; `ever_exposed` persists. -/
+theorem C13_syphilis_treatment_partial : ∀ (s : Flags) (g : BpgG), Syphilis.partition s = true →
+    Syphilis.stagePartition (treatBpg s g) = true ∧
+    Syphilis.treatArrow (Syphilis.comp s) (Syphilis.comp (treatBpg s g)) = true ∧
+    (g.p_treated = false → treatBpg s g = s) ∧
+    ((treatBpg s g).infected = true → s.infected = true) ∧
+    ((treatBpg s g).susceptible = true → (treatBpg s g).infected = false) ∧
+    (treatBpg s g).ever_exposed = s.ever_exposed := by
+  decide +kernel
+
+/-- ART writes `on_art` only: the HIV partition and compartment do not depend on it. -/
+theorem C13_hiv_art_frame : ∀ (s : Gen.Hiv.Flags) (b : Bool),
+    Hiv.partition { s with on_art := b } = Hiv.partition s ∧ Hiv.comp { s with on_art := b } = Hiv.comp s := by
+  decide +kernel
+
+example : Syphilis.comp (treatBpg { susceptible := false, infected := true, exposed := false, primary := true, secondary := false,
+                                    latent_temp := false, latent_long := false, tertiary := false, immune := false,
+                                    ever_exposed := true, congenital := false }
+                                  ⟨true, false, true, false, false, false, false⟩) = .S := by decide
+end outside
+
+/-! ## Scheduled times: recovery / death never precede the infection (durations non-negative)
+
+`Gen.<D>.setPrognosesTimers now d s g t` is the regenerated per-agent effect of `set_prognoses` on the `ti_*` arrays
+(`none` = nan): `now` is the current step, `d` the opaque drawn durations (one variable per occurrence), `g` the guard
+atoms selecting the agents of each write, `t` the timers before.  Theorems are for ALL rational times and durations
+(`grind` over core `Rat`); "fresh" = nothing scheduled before (first infection). -/
+section timers
+open TimerOps
+
+/-- SIR: the infection time is the current step; recovery and death are scheduled at or after it. -/
+theorem C13_sir_timers (now : Rat) (d : Gen.Sir.SetPrognosesD) (s : Gen.Sir.Flags) (g : Gen.Sir.SetPrognosesTG)
+    (t : Gen.Sir.Timers) (hd : d.nonneg) (hu : g.p_uids = true) (hf : t = Gen.Sir.Timers.const none) :
+    (Gen.Sir.setPrognosesTimers now d s g t).ti_infected = some now ∧
+    leOpt (some now) (Gen.Sir.setPrognosesTimers now d s g t).ti_recovered = true ∧
+    leOpt (some now) (Gen.Sir.setPrognosesTimers now d s g t).ti_dead = true := by
+  subst hf
+  simp only [Gen.Sir.setPrognosesTimers, Gen.Sir.Timers.const, Gen.Sir.SetPrognosesD.nonneg, oadd, leOpt] at *
+  grind
+
+/-- SIS (reinfection possible): every infection reschedules recovery, whatever was scheduled before. -/
+theorem C13_sis_timers (now : Rat) (d : Gen.Sis.SetPrognosesD) (s : Gen.Sis.Flags) (g : Gen.Sis.SetPrognosesTG)
+    (t : Gen.Sis.Timers) (hd : d.nonneg) (hu : g.p_uids = true) :
+    (Gen.Sis.setPrognosesTimers now d s g t).ti_infected = some now ∧
+    leOpt (some now) (Gen.Sis.setPrognosesTimers now d s g t).ti_recovered = true := by
+  simp only [Gen.Sis.setPrognosesTimers, Gen.Sis.SetPrognosesD.nonneg, oadd, leOpt] at *
+  grind
+
+/-- Measles, relative to the infection EVENT (exposure = the current step): every scheduled time is at or after it. -/
+theorem C13_measles_timers (now : Rat) (d : Gen.Measles.SetPrognosesD) (s : Gen.Measles.Flags) (g : Gen.Measles.SetPrognosesTG)
+    (t : Gen.Measles.Timers) (hd : d.nonneg) (hu : g.p_uids = true) (hf : t = Gen.Measles.Timers.const none) :
+    (Gen.Measles.setPrognosesTimers now d s g t).ti_exposed = some now ∧
+    leOpt (some now) (Gen.Measles.setPrognosesTimers now d s g t).ti_infected = true ∧
+    leOpt (some now) (Gen.Measles.setPrognosesTimers now d s g t).ti_recovered = true ∧
+    leOpt (some now) (Gen.Measles.setPrognosesTimers now d s g t).ti_dead = true := by
+  subst hf
+  simp only [Gen.Measles.setPrognosesTimers, Gen.Measles.Timers.const, Gen.Measles.SetPrognosesD.nonneg, oadd, leOpt] at *
+  grind
+
+/-- Measles, relative to the ONSET (`ti_infected`): **spec or as-is**.  EITHER recovery and death are never scheduled
+    before the onset, OR today's double prognosis is exhibited (kernel search over 0/1 durations and all guard
+    valuations): the inherited `SIR.set_prognoses` schedules recovery from the infection step with its own `p_death`
+    draw; an agent that recovers in that draw and dies in Measles' own draw keeps it, before `ti_infected`. -/
+theorem C13_measles_timers_onset :
+    (∀ (now : Rat) (d : Gen.Measles.SetPrognosesD) (s : Gen.Measles.Flags) (g : Gen.Measles.SetPrognosesTG),
+      d.nonneg → g.p_uids = true →
+      leOpt (Gen.Measles.setPrognosesTimers now d s g (Gen.Measles.Timers.const none)).ti_infected
+            (Gen.Measles.setPrognosesTimers now d s g (Gen.Measles.Timers.const none)).ti_recovered = true ∧
+      leOpt (Gen.Measles.setPrognosesTimers now d s g (Gen.Measles.Timers.const none)).ti_infected
+            (Gen.Measles.setPrognosesTimers now d s g (Gen.Measles.Timers.const none)).ti_dead = true)
+    ∨ (∃ d ∈ Gen.Measles.SetPrognosesD.all01, ∃ g : Gen.Measles.SetPrognosesTG, ∃ s : Gen.Measles.Flags, g.p_uids = true ∧ d.nonneg ∧
+        leOpt (Gen.Measles.setPrognosesTimers 0 d s g (Gen.Measles.Timers.const none)).ti_infected
+              (Gen.Measles.setPrognosesTimers 0 d s g (Gen.Measles.Timers.const none)).ti_recovered = false) := by
+  first
+  | (right; decide +kernel)
+  | (left; intro now d s g hd hu
+     simp only [Gen.Measles.setPrognosesTimers, Gen.Measles.Timers.const, Gen.Measles.SetPrognosesD.nonneg, oadd, leOpt] at *
+     grind)
+
+/-- Ebola: exposure now ≤ onset ≤ severe, recovery, death; burial at or after death. -/
+theorem C13_ebola_timers (now : Rat) (d : Gen.Ebola.SetPrognosesD) (s : Gen.Ebola.Flags) (g : Gen.Ebola.SetPrognosesTG)
+    (t : Gen.Ebola.Timers) (hd : d.nonneg) (hu : g.p_uids = true) (hf : t = Gen.Ebola.Timers.const none) :
+    (Gen.Ebola.setPrognosesTimers now d s g t).ti_exposed = some now ∧
+    leOpt (some now) (Gen.Ebola.setPrognosesTimers now d s g t).ti_infected = true ∧
+    leOpt (Gen.Ebola.setPrognosesTimers now d s g t).ti_infected (Gen.Ebola.setPrognosesTimers now d s g t).ti_severe = true ∧
+    leOpt (Gen.Ebola.setPrognosesTimers now d s g t).ti_infected (Gen.Ebola.setPrognosesTimers now d s g t).ti_recovered = true ∧
+    leOpt (Gen.Ebola.setPrognosesTimers now d s g t).ti_infected (Gen.Ebola.setPrognosesTimers now d s g t).ti_dead = true ∧
+    leOpt (Gen.Ebola.setPrognosesTimers now d s g t).ti_dead (Gen.Ebola.setPrognosesTimers now d s g t).ti_buried = true := by
+  subst hf
+  simp only [Gen.Ebola.setPrognosesTimers, Gen.Ebola.Timers.const, Gen.Ebola.SetPrognosesD.nonneg, oadd, leOpt] at *
+  grind
+
+/-- Cholera, relative to the infection event (exposure): everything is scheduled at or after it, symptoms at the onset. -/
+theorem C13_cholera_timers (now : Rat) (d : Gen.Cholera.SetPrognosesD) (s : Gen.Cholera.Flags) (g : Gen.Cholera.SetPrognosesTG)
+    (t : Gen.Cholera.Timers) (hd : d.nonneg) (hu : g.p_uids = true) (hf : t = Gen.Cholera.Timers.const none) :
+    (Gen.Cholera.setPrognosesTimers now d s g t).ti_exposed = some now ∧
+    leOpt (some now) (Gen.Cholera.setPrognosesTimers now d s g t).ti_infected = true ∧
+    leOpt (some now) (Gen.Cholera.setPrognosesTimers now d s g t).ti_recovered = true ∧
+    leOpt (Gen.Cholera.setPrognosesTimers now d s g t).ti_infected (Gen.Cholera.setPrognosesTimers now d s g t).ti_symptomatic = true ∧
+    leOpt (Gen.Cholera.setPrognosesTimers now d s g t).ti_infected (Gen.Cholera.setPrognosesTimers now d s g t).ti_dead = true := by
+  subst hf
+  simp only [Gen.Cholera.setPrognosesTimers, Gen.Cholera.Timers.const, Gen.Cholera.SetPrognosesD.nonneg, oadd, leOpt] at *
+  grind
+
+/-- Cholera, relative to the ONSET: **spec or as-is**.  Today recovery is scheduled from the exposure
+    (`ti_exposed + dur`) while the onset is `ti + dur_exp2inf`: recovery can precede the onset (E → R without ever
+    being `infected`). -/
+theorem C13_cholera_timers_onset :
+    (∀ (now : Rat) (d : Gen.Cholera.SetPrognosesD) (s : Gen.Cholera.Flags) (g : Gen.Cholera.SetPrognosesTG),
+      d.nonneg → g.p_uids = true →
+      leOpt (Gen.Cholera.setPrognosesTimers now d s g (Gen.Cholera.Timers.const none)).ti_infected
+            (Gen.Cholera.setPrognosesTimers now d s g (Gen.Cholera.Timers.const none)).ti_recovered = true)
+    ∨ (∃ d ∈ Gen.Cholera.SetPrognosesD.all01, ∃ g : Gen.Cholera.SetPrognosesTG, ∃ s : Gen.Cholera.Flags, g.p_uids = true ∧ d.nonneg ∧
+        leOpt (Gen.Cholera.setPrognosesTimers 0 d s g (Gen.Cholera.Timers.const none)).ti_infected
+              (Gen.Cholera.setPrognosesTimers 0 d s g (Gen.Cholera.Timers.const none)).ti_recovered = false) := by
+  first
+  | (right; decide +kernel)
+  | (left; intro now d s g hd hu
+     simp only [Gen.Cholera.setPrognosesTimers, Gen.Cholera.Timers.const, Gen.Cholera.SetPrognosesD.nonneg, oadd, leOpt] at *
+     grind)
+
+/-- Gonorrhea, first infection: a scheduled clearance is at or after the infection. -/
+theorem C13_gonorrhea_timers (now : Rat) (d : Gen.Gonorrhea.SetPrognosesD) (s : Gen.Gonorrhea.Flags) (g : Gen.Gonorrhea.SetPrognosesTG)
+    (t : Gen.Gonorrhea.Timers) (hd : d.nonneg) (hu : g.p_uids = true) (hf : t = Gen.Gonorrhea.Timers.const none) :
+    (Gen.Gonorrhea.setPrognosesTimers now d s g t).ti_infected = some now ∧
+    leOpt (some now) (Gen.Gonorrhea.setPrognosesTimers now d s g t).ti_clearance = true := by
+  subst hf
+  simp only [Gen.Gonorrhea.setPrognosesTimers, Gen.Gonorrhea.Timers.const, Gen.Gonorrhea.SetPrognosesD.nonneg, oadd, leOpt] at *
+  grind
+
+/-- Gonorrhea, REinfection: **spec or as-is**.  EITHER every infection leaves a clearance time at or after it whatever
+    was scheduled before, OR today's defect is exhibited: `set_prognoses` reschedules `ti_clearance` only for the `p_clear`
+    fraction, so an agent infected at step 1 can keep a clearance time 0 from an earlier infection. -/
+theorem C13_gonorrhea_timers_reinfection :
+    (∀ (now : Rat) (d : Gen.Gonorrhea.SetPrognosesD) (s : Gen.Gonorrhea.Flags) (g : Gen.Gonorrhea.SetPrognosesTG) (t : Gen.Gonorrhea.Timers),
+      d.nonneg → g.p_uids = true → leOpt (some now) (Gen.Gonorrhea.setPrognosesTimers now d s g t).ti_clearance = true)
+    ∨ (∃ d ∈ Gen.Gonorrhea.SetPrognosesD.all01, ∃ g : Gen.Gonorrhea.SetPrognosesTG, ∃ s : Gen.Gonorrhea.Flags, g.p_uids = true ∧ d.nonneg ∧
+        leOpt (some 1) (Gen.Gonorrhea.setPrognosesTimers 1 d s g (Gen.Gonorrhea.Timers.const (some 0))).ti_clearance = false) := by
+  first
+  | (right; decide +kernel)
+  | (left; intro now d s g t hd hu
+     simp only [Gen.Gonorrhea.setPrognosesTimers, Gen.Gonorrhea.SetPrognosesD.nonneg, oadd, leOpt] at *
+     grind)
+
+/-- HIV: the infection time is the current step (death is requested, not scheduled, by `step_state`). -/
+theorem C13_hiv_timers (now : Rat) (d : Gen.Hiv.SetPrognosesD) (s : Gen.Hiv.Flags) (g : Gen.Hiv.SetPrognosesTG)
+    (t : Gen.Hiv.Timers) (hu : g.p_uids = true) :
+    (Gen.Hiv.setPrognosesTimers now d s g t).ti_infected = some now := by
+  simp only [Gen.Hiv.setPrognosesTimers] at *
+  grind
+
+/-- Syphilis: exposure and infection now ≤ primary ≤ secondary. -/
+theorem C13_syphilis_timers (now : Rat) (d : Gen.Syphilis.SetPrognosesD) (s : Gen.Syphilis.Flags) (g : Gen.Syphilis.SetPrognosesTG)
+    (t : Gen.Syphilis.Timers) (hd : d.nonneg) (hu : g.p_uids = true) :
+    (Gen.Syphilis.setPrognosesTimers now d s g t).ti_infected = some now ∧
+    (Gen.Syphilis.setPrognosesTimers now d s g t).ti_exposed = some now ∧
+    leOpt (some now) (Gen.Syphilis.setPrognosesTimers now d s g t).ti_primary = true ∧
+    leOpt (Gen.Syphilis.setPrognosesTimers now d s g t).ti_primary (Gen.Syphilis.setPrognosesTimers now d s g t).ti_secondary = true := by
+  simp only [Gen.Syphilis.setPrognosesTimers, Gen.Syphilis.SetPrognosesD.nonneg, oadd, leOpt] at *
+  grind
+
+/-- non-vacuity: durations all 1 are non-negative; the fresh timer record exists -/
+example : (Gen.Sir.SetPrognosesD.all01.all fun d => decide d.nonneg) = true := by decide +kernel
+example : (Gen.Sir.setPrognosesTimers 3 ⟨2, 5⟩ ⟨true, false, false⟩ ⟨true, true⟩ (Gen.Sir.Timers.const none)).ti_dead = some 5 := by decide +kernel
+end timers
+
+/-! ## Where immunity is permanent: cumulative infections = number of distinct agents ever infected -/
+section distinct
+open InfectionCount
+
+/-- If every infection event hits an agent with no recorded infection — which is what the partition/arrow theorems give
+    for SIR, Measles, Ebola, Cholera, HIV and Syphilis (an infected agent never returns to susceptible, and only
+    susceptibles are infected) — then over any run the agents passed to `set_prognoses` are pairwise distinct, so the
+    total number of infection events, i.e. the final cumulative count of `C13_cum_infections`, is the number of distinct
+    agents ever infected. -/
+theorem C13_cum_distinct (steps : List (List Nat × List Nat)) (m : TiMap) (t : Nat)
+    (hnb : NeverBefore m t steps) (hn : ∀ p ∈ steps, p.2.Nodup) :
+    (allEvents steps).Nodup ∧ (steps.map (fun p => p.2.length)).sum = (allEvents steps).length :=
+  ⟨events_nodup steps m t hnb hn, sum_lengths_eq steps⟩
+
+/-- the hypothesis is needed and can fail where reinfection is possible: the same agent twice -/
+example : ¬ (allEvents [([0, 1], [1]), ([0, 1], [1])]).Nodup := by decide
+example : NeverBefore (fun _ => none) 0 [([0, 1, 2], [1]), ([0, 2, 3], [0, 3])] := by
+  simp [NeverBefore, infect]
+end distinct
 
 end StarsimModel.C13
